@@ -28,7 +28,7 @@ from ..selftest import Mutant
 
 PROP = "C20"
 MOD = "pipefunc.resources"
-TECHNIQUE = "static analysis: alias/purity abstract interpretation + typed ordering rule + merge-direction and field-coverage analysis over the AST and call graph of pipefunc/resources.py + running-extremum discipline + regex-AST field-width rule"
+TECHNIQUE = "static analysis: alias/purity abstract interpretation + typed ordering rule + merge-direction and field-coverage analysis over the AST and call graph of pipefunc/resources.py + running-extremum discipline + regex-AST field-width rule + lossy-component rule (timedelta.seconds) + no-removal rule in with_defaults + extra-args-cannot-displace rule"
 EXPLANATION = (
     "Static analysis of pipefunc/resources.py (functions analysed together with the private helpers and module constants "
     "they use; local definitions are followed, names of locals are irrelevant): an alias/purity abstract interpretation, "
@@ -553,6 +553,10 @@ F = "pipefunc/resources.py"
 _TIME_ARM = ('            if resources.time is not None and (\n                max_data["time"] is None\n                or Resources._convert_to_seconds(resources.time)\n'
              '                > Resources._convert_to_seconds(max_data["time"])\n            ):\n                max_data["time"] = resources.time\n')
 MUTANTS = [
+    Mutant("timedelta-seconds-component", "pipefunc/resources.py", "        units = (1, 60, 3600, 86400)\n        return sum(int(v) * unit for v, unit in zip(reversed(time.split(\":\")), units))\n",
+           "        from datetime import timedelta\n        s_, m_, h_, d_ = ([int(v) for v in reversed(time.split(\":\"))] + [0, 0])[:4]\n        return timedelta(days=d_, hours=h_, minutes=m_, seconds=s_).seconds\n", ("C20.2-magnitude",), why="round-4 seed C20/11"),
+    Mutant("with-defaults-drops-cpus", "pipefunc/resources.py", "        return Resources(**dict(default_resources.dict(), **self.dict()))\n",
+           "        data = dict(default_resources.dict(), **self.dict())\n        if \"nodes\" in data:\n            data.pop(\"cpus\", None)\n        return Resources(**data)\n", ("C20.7-defaults",), why="round-4 seed C20/12"),
     Mutant("update-original-F31", F, '                data["extra_args"] = {**data["extra_args"], key: value}\n', '                data["extra_args"][key] = value\n', ("C20.1-pure",), why="original F31"),
     Mutant("update-extra-args-inplace", F, '                data["extra_args"] = {**data["extra_args"], **value}\n', '                data["extra_args"].update(value)\n', ("C20.1-pure",)),
     Mutant("combine-max-mutates-operand", F, "        max_data: dict[str, Any] = {\n", "        resources_list.sort(key=lambda r: r.cpus or 0)\n        max_data: dict[str, Any] = {\n", ("C20.1-pure",)),
